@@ -307,6 +307,77 @@ func runC03(c *eng.Ctx) {
 		}
 	}
 	_ = total
+
+	// ---- R9 tasks handed back in a TaskResult are inserted by the worker into the queue that runs the handler; the
+	// handlers look up "their" queue by the task's own queue name (combining, Filter), so such tasks must carry the
+	// name of the queue they are inserted into
+	r9 := c.Rule("C03.R9", "D:provenance", "tasks returned as HeadTasks/TailTasks/AfterTasks carry the name of the queue that executes the handler (the literal main queue name or t.GetQueueName())", 1)
+	withQN := p.Method(pkgTask, "BaseTask", "WithQueueName")
+	getQN := p.Method(pkgTask, "Task", "GetQueueName")
+	nres := 0
+	for _, fld := range []string{"HeadTasks", "TailTasks", "AfterTasks"} {
+		rf := p.Field(pkgQueue, "TaskResult", fld)
+		if rf == nil {
+			r9.Unknown("anchor:TaskResult."+fld, token.NoPos, "field not found")
+			continue
+		}
+		for _, ref := range p.Refs(rf) {
+			if !ref.Write || ref.In == nil || !strings.HasPrefix(ref.In.Key, pkgOp+".") {
+				continue
+			}
+			f := ref.In
+			c.Touch(f)
+			info := f.Pkg.TypesInfo
+			nres++
+			// every task built in this handler names the handler's queue
+			calls := callsDeep(info, f.Decl.Body, isObj(withQN))
+			okAll := len(calls) > 0
+			var bad ast.Expr
+			for _, call := range calls {
+				okOne := false
+				if len(call.Args) == 1 {
+					if v, isC := eng.ConstStr(info, call.Args[0]); isC && v == "main" {
+						okOne = true
+					}
+					if cl, isCl := ast.Unparen(call.Args[0]).(*ast.CallExpr); isCl && eng.CalleeOf(info, cl) == getQN {
+						if s, isS := ast.Unparen(cl.Fun).(*ast.SelectorExpr); isS && isParamOfFunc(f, eng.SelObj(info, s.X)) {
+							okOne = true
+						}
+					}
+				}
+				if !okOne {
+					okAll = false
+					bad = call
+				}
+			}
+			pos := f.Decl.Pos()
+			if bad != nil {
+				pos = bad.Pos()
+			}
+			r9.Check(okAll, f.Key+" result tasks name the executing queue ("+fld+")", pos, "WithQueueName(\"main\") / WithQueueName(t.GetQueueName())",
+				"a task that the worker inserts into the queue running this handler is labelled with another queue's name: when it runs, combining and Filter operate on that other queue - its tasks (including the one its own worker is executing) are merged and deleted from a foreign goroutine, executions of that queue overlap and leave head-first order")
+		}
+	}
+	if nres == 0 {
+		r9.Ok("no handler returns tasks in a TaskResult", token.NoPos, "nothing to check")
+	}
+
+	// ---- R10 (shared with C01.R5): events that arrived while the binding was locked are replayed in arrival order,
+	// inside the critical section that flips the flag, so that a directly delivered event cannot overtake them
+	r10 := c.Rule("C03.R10", "B+A+C", "enableKubeEventCb: under eventBufLock sets the flag, replays eventBuf in ascending order through putEvent before clearing it (tasks are queued in the order the events were received)", 5)
+	runC01R5(c, r10)
+}
+
+func isParamOfFunc(f *eng.Func, o types.Object) bool {
+	if o == nil {
+		return false
+	}
+	for _, prm := range paramObjs(f) {
+		if prm == o {
+			return true
+		}
+	}
+	return false
 }
 
 func runC03R5(c *eng.Ctx, r *eng.RuleCtx) {
